@@ -334,11 +334,16 @@ def make_history(pid, seed, index):
     rng = random.Random(f"{seed}:{pid}:{index}")
     w = World(rng)
     w.index = index
+    stopped = ""
     try:
         PROGRAMS[pid](w, rng)
     except C.MachineryError:
         raise
+    except Exception as ex:      # noqa: the harness bookkeeping lost track (expected only after the library misbehaved): the steps
+        import traceback         # recorded so far are still judged by TLC; unexplained stops are a machinery failure (see check)
+        stopped = type(ex).__name__ + ": " + str(ex)[:200] + " @ " + traceback.format_exc().strip().splitlines()[-3].strip()[:160]
     h = w.history()
+    h["harness_stopped"] = stopped
     h["prog"] = w.prog
     h["gen"] = dict(pid=pid, seed=seed, index=index)
     return h
@@ -436,7 +441,11 @@ def check(pid, argv=None):
         "64-bit words are decoded by TLC only within +-2^23 (model-sized buffers)"]
     if run.replay:
         g = json.load(open(run.replay))["replay"]["gen"]
-        hists = [make_history(g["pid"], g["seed"], g["index"])]
+        if g.get("kind") == "model":
+            from . import heapgen
+            hists = [heapgen.replay(g["model"], g["seed"], g["index"])]
+        else:
+            hists = [make_history(g["pid"], g["seed"], g["index"])]
     else:
         if pid in ("C05", "C03"):
             from . import layoutmc
@@ -446,6 +455,23 @@ def check(pid, argv=None):
         n = COUNTS[run.tier]
         t1 = time.time()
         hists = [make_history(pid, run.seed, i) for i in range(n)]
+        if pid in ("C08", "C09", "C10"):
+            # spec -> code: every history TLC enumerates over the reference-graph model (a sample of them in this tier)
+            from . import heapgen
+            models, res = heapgen.export(run)
+            rng = random.Random(run.seed * 31 + 5)
+            want = {"C08": ("bind", "newholder", "writeref", "writeorig", "grow"), "C09": ("copy",), "C10": ("setplain", "writeorig", "writeref", "grow")}[pid]
+            relevant = [m for m in models if sum(1 for ev in m["hist"] if ev["op"] in want) >= (2 if pid == "C08" else 1)]
+            rng.shuffle(relevant)
+            take = relevant[:heapgen.TIERS[run.tier]["sample"]]
+            gh = [heapgen.replay(m, run.seed, i) for i, m in enumerate(take)]
+            run.notes["model_histories"] = dict(enumerated_by_tlc=len(models), relevant=len(relevant), replayed=len(gh),
+                                                followed_to_the_end=sum(1 for h in gh if h["followed"]),
+                                                graph_mismatch=sum(1 for h in gh if h["graph_mismatch"]))
+            for h in gh:
+                if h["graph_mismatch"]:
+                    run.notes.setdefault("graph_mismatch_example", h["graph_mismatch"] + " :: " + str(h["prog"])[:300])
+            hists += gh
         run.notes["t_execute"] = round(time.time() - t1, 1)
     t1 = time.time()
     verdicts, tot = validate(hists)
@@ -457,6 +483,10 @@ def check(pid, argv=None):
     abandoned = collections.Counter()
     steps_ok = 0
     for h, (pos, clauses) in zip(hists, verdicts):
+        if h.get("harness_stopped"):
+            run.count("harness_stopped_after_library_misbehaved" if pos else "harness_stopped_unexplained")
+            if not pos:
+                raise C.MachineryError(f"the harness lost track of history {h['gen']} although TLC accepts every recorded step: {h['harness_stopped']}; program {h['prog']}")
         nsteps = len(h["steps"]) if pos == 0 else pos - 1
         steps_ok += nsteps
         for e in h["steps"][:nsteps]:
